@@ -41,6 +41,7 @@ declarations:
 - decl: namespace inner
   declarations:
   - decl: Cls * spawn(int v) +owner(caller)
+- decl: std::vector<int> iota(int n)
 - decl: void maketable(int **tbl +intent(out)+owner(caller)+dimension(n), int n)
 - decl: Cls * pooled(int v) +owner(caller)+free_pattern(pool_release)
 - decl: Cls * make(int v) +owner(caller)
@@ -66,6 +67,7 @@ HPP = """
 #include <vector>
 class Cls { public: int value; explicit Cls(int v); ~Cls(); int get() const; Cls *clone(); };
 namespace inner { Cls *spawn(int v); }
+std::vector<int> iota(int n);
 void maketable(int **tbl, int n);
 Cls *pooled(int v);
 void pool_put(Cls *p);
@@ -114,6 +116,7 @@ Cls *pooled(int v) { return new Cls(v + 500); }
 void pool_put(Cls *p) { vt_begin("Lib", "pool"); vt_obj(p); vt_end(); delete p; }
 static Cls *the_static = 0;
 Cls *borrow() { if (!the_static) the_static = new Cls(-1); return the_static; }
+std::vector<int> iota(int n) { std::vector<int> v; for (int i = 0; i < n; i++) v.push_back(i + 1); return v; }
 const std::string getstr(int n) { return std::string((size_t)n, 'g'); }
 void upper(std::string &s) { for (size_t i = 0; i < s.size(); i++) if (s[i] >= 'a' && s[i] <= 'z') s[i] -= 32; }
 void fill(std::vector<int> &v, int n) { v.clear(); for (int i = 0; i < n; i++) v.push_back(i * i); }
@@ -237,6 +240,9 @@ program fdrv
       if (len(s) /= 2) stop 12
       s = dupname(n)
       if (len(s) /= 2) stop 14
+      if (allocated(v)) deallocate(v)
+      v = iota(n)
+      if (size(v) /= n) stop 16
       s = newstring(n)
       if (len(s) /= n) stop 15
     end do
